@@ -165,6 +165,10 @@ fn write_like(w: &mut DeferredWriter, op: &str, i: usize, k: usize, written: &mu
         match catch(|| {
             if use_write {
                 w.write(&data).map(|n| n == data.len())
+            } else if (i + len) % 3 == 0 {
+                // the inherent method behind `write_all` (same model operation)
+                w.write_all_defer_err(&data);
+                Ok(true)
             } else {
                 w.write_all(&data).map(|_| true)
             }
@@ -226,7 +230,12 @@ pub fn run_case(line: &str) -> (String, Vec<String>) {
     let benign = sched.iter().all(|e| matches!(e, WEv::Accept(_) | WEv::Intr));
     let sink_may_panic = sched.iter().any(|e| matches!(e, WEv::Panic));
     let sink = Sink(Rc::new(RefCell::new(SinkState { sched: sched.into(), ..Default::default() })));
-    let mut w = ManuallyDrop::new(DeferredWriter::from_write(sink.clone()));
+    // both constructors (the model does not distinguish them)
+    let mut w = ManuallyDrop::new(if line.len() % 2 == 1 {
+        DeferredWriter::from_boxed_dyn_write(Box::new(sink.clone()))
+    } else {
+        DeferredWriter::from_write(sink.clone())
+    });
     let mut written: Vec<u8> = vec![];
     let mut out: Vec<String> = vec![];
     let mut fails = vec![];
